@@ -128,17 +128,20 @@ func c16Check(c C16Case, rec *Recorder) *Disc {
 	mBase, errBase := mkMW(c.Base, false)
 	hstar, auth, names := listedReqHdrs(c.Base)
 	model := NewOriginModel(cfg.Origins)
-	ref := Do(m.Wrap, Preflight("null", "GET"), nil) // the reference failure: a disallowed origin
+	// the whole batch goes through ONE wrapped handler, as on a real server: whatever the
+	// wrapped handler keeps between requests must not show in a later response
+	srv := NewServer(m.Wrap)
+	ref := Do(srv.Wrap, Preflight("null", "GET"), nil) // the reference failure: a disallowed origin
 	if len(ref.Hdr[hACAO]) != 0 {
 		return discf("cfg %+v: preflight from the null origin is answered with ACAO %q", cfg, ref.Hdr[hACAO])
 	}
-	for _, r := range c.Reqs {
+	for ri, r := range c.Reqs {
 		if !isPreflight(r) {
 			continue
 		}
-		resp := Do(m.Wrap, r, nil)
+		resp := Do(srv.Wrap, r, nil)
 		rec.Eval(1)
-		where := fmt.Sprintf("cfg %+v request {%s} -> status %d headers %s", cfg, r.Brief(), resp.Status, abbrev(hdrSig(resp.Hdr), 600))
+		where := fmt.Sprintf("cfg %+v request #%d of the batch {%s} -> status %d headers %s", cfg, ri, r.Brief(), resp.Status, abbrev(hdrSig(resp.Hdr), 600))
 		origin, _ := firstVal(r, hOrigin)
 		acrm, _ := firstVal(r, hACRM)
 		acrhVals, hasACRH := r.Get(hACRH)
@@ -190,9 +193,14 @@ func c16Check(c C16Case, rec *Recorder) *Disc {
 					if !(eq1(v, "*") || eq1(v, origin)) {
 						return discf("ACAO %q is neither * nor the request's origin: %s", v, where)
 					}
-				case hACAC, hACAPN:
-					if !eq1(v, "true") {
-						return discf("%s = %q: %s", k, v, where)
+				case hACAC:
+					if !eq1(v, "true") || !cfg.Credentialed {
+						return discf("%s = %q (credentialed=%v): %s", k, v, cfg.Credentialed, where)
+					}
+				case hACAPN:
+					asked, _ := firstVal(r, hACRPN)
+					if !eq1(v, "true") || asked != "true" {
+						return discf("%s = %q although the request's ACRPN is %q: the response answers something that was not asked: %s", k, v, asked, where)
 					}
 				case hACAM:
 					if !(eq1(v, "*") || eq1(v, acrm)) {
@@ -233,8 +241,8 @@ func c16Check(c C16Case, rec *Recorder) *Disc {
 
 func TestC16(t *testing.T) {
 	Prop[C16Case]{ID: "C16", Gen: c16Gen, Check: c16Check,
-		Rule: "generator: valid configuration extended with canary entries (an origin, a method, a request-header and a response-header name that no generated request mentions), debug off, x batch of 4-20 arbitrary preflight requests (any Origin incl. malformed/multi-valued, any ACRM, 0-3 ACRH lines, ACRPN). " +
-			"Oracle: ACAO present iff the reference outcome model (origin model + PNA switch + method rule + reference ACRH reader) says the preflight succeeds; no ACAO => no Access-Control-* header and the same status as a preflight from the null origin; ACAO => success status and only *, true, the configured max-age and tokens the request itself supplied (ACAH = * | documented *,authorization | the request's own lines), no canary substring anywhere; " +
-			"metamorphic: removing the canaries does not change the response (when the base keeps >=1 request-header entry). non-trivial = preflight from an allowed origin that fails at a later step, or succeeds with ACRH present; distinct by (configuration, request).",
+		Rule: "generator: valid configuration extended with canary entries (an origin, a method, a request-header and a response-header name that no generated request mentions), debug off, x batch of 4-20 arbitrary preflight requests (any Origin incl. malformed/multi-valued, any ACRM, 0-3 ACRH lines, ACRPN), all served through ONE wrapped handler (one Wrap call) in sequence so that state kept between requests shows. " +
+			"Oracle: ACAO present iff the reference outcome model (origin model + PNA switch + method rule + reference ACRH reader) says the preflight succeeds; no ACAO => no Access-Control-* header and the same status as a preflight from the null origin; ACAO => success status and only *, true, the configured max-age and tokens the request itself supplied (ACAH = * | documented *,authorization | the request's own lines), ACAC only on a credentialed configuration, ACAPN only if the request sent ACRPN: true; no canary substring anywhere; " +
+			"metamorphic: removing the canaries (and serving the request alone through a freshly wrapped handler) does not change the response (when the base keeps >=1 request-header entry). non-trivial = preflight from an allowed origin that fails at a later step, or succeeds with ACRH present; distinct by (configuration, request).",
 		Assumptions: []string{"a preflight from Origin: null is the reference failure for every configuration"}}.Run(t)
 }
